@@ -467,6 +467,7 @@ def spectral_cases(draw, tier, size=None):
     lo_, hi = size or (1, 6 if tier == "quick" else 8)
     m = draw(st.integers(lo_, hi))
     n = draw(st.integers(lo_, hi))
+    m, n = draw(gen.maybe_high_aspect(m, n, one_in=10))
     k = min(m, n)
     r = draw(st.sampled_from(list(range(1, k + 1)) * 3 + [0] + ([k - 1] * 2 if k >= 2 else [])
                              + ([k - 2] * 2 if k >= 3 else [])))
